@@ -18,8 +18,9 @@ MACS = ["valid", "zero", "random", "bitflip", "absent"]
 
 def forge(rng, st, req, body, mac, auth_flag, enc, value, **over):
     """one reply to `req` from the forgery matrix"""
-    vbs = [ber.varbind(tuple(req["varbinds"][0][0]), ber.INT(value))] if req["varbinds"] else []
-    tag = 2 if body == "response" else 8
+    tag = body if isinstance(body, int) else (2 if body == "response" else 8)
+    # (request PDUs bind their names to NULL: anything else would not be a well-formed request)
+    vbs = [ber.varbind(tuple(req["varbinds"][0][0]), ber.NULL if tag in (0, 1, 5) else ber.INT(value))] if req["varbinds"] else []
     kw = dict(auth=auth_flag, priv=enc)
     kw.update(over)
     if mac == "valid":
@@ -180,12 +181,20 @@ def run(chk, model_ok=True):
                         over["msg_id"] = near_ints(rng, req["msg_id"])
                     else:
                         rq["request_id"] = near_ints(rng, req["request_id"])
-                    dg = forge(rng, st, rq, "response", rng.choice(["zero", "absent", "random", "valid"]), rng.random() < 0.7,
-                               bool(priv) and rng.random() < 0.5, 5, **over)
+                    # (a foreign request id may also come in a request-type PDU: a reflected or misdirected manager request)
+                    btag = rng.choice([2, 2, 0, 1, 5]) if field == "request_id" else 2
+                    dg = forge(rng, st, rq, btag if btag != 2 else "response", rng.choice(["zero", "absent", "random", "valid"]),
+                               rng.random() < 0.7, bool(priv) and rng.random() < 0.5, 5, **over)
                     if dg is None:
                         continue
                     n += 1
                     r = s.recv("get", [dg])["result"]
+                    if r[0] == "exc" and r[1] != "BlockingIOError":
+                        shown = over.get(field, rq["request_id"])
+                        shown = shown.hex() if isinstance(shown, bytes) else shown
+                        fail(f"{s.label}: a forged {['GetRequest', 'GetNextRequest', 'GetResponse', '', '', 'GetBulkRequest'][btag]} with a wrong "
+                             f"{field} ({shown}) was not passed over: it ended the call with {r[1]} (the genuine reply could no longer be received)",
+                             s.line())
                     if r[0] == "ok":
                         shown = over.get(field, rq["request_id"])
                         shown = shown.hex() if isinstance(shown, bytes) else shown
